@@ -44,7 +44,9 @@ IsXmp(i)  == segs[i].mk = "APP1" /\ segs[i].cls = "xmp"
 
 SeqsUpTo(S, n) == UNION {[1..k -> S] : k \in 0..n}
 
-Init == /\ \E s \in SeqsUpTo(Shapes, MaxSegs) : segs = s \o <<DQT>>
+\* at most one maximum-length segment per stream (bounds the bytes replayed, not the behaviour)
+OneBig(s) == \A i, j \in 1..Len(s) : (s[i].plen > 60000 /\ s[j].plen > 60000) => i = j
+Init == /\ \E s \in SeqsUpTo(Shapes, MaxSegs) : OneBig(s) /\ segs = s \o <<DQT>>
         /\ lead \in Lead
         /\ xcons \in [1..Len(segs) -> {"none", "part", "all"}]
         /\ \A i \in 1..Len(segs) : (~(segs[i].mk = "APP1" /\ segs[i].cls = "xmp")) => xcons[i] = "none"
